@@ -227,6 +227,7 @@ let rec parse_op toks : zop =
   | ["append"; d; s] -> OAppend (nat_s d, nat_s s)
   | ["convert"; r] -> OConvert (nat_s r)
   | ["clone"; s; d] -> OClone (nat_s s, nat_s d)
+  | ["clonefrom"; s; d] -> OCloneFrom (nat_s s, nat_s d)
   | ["eq"; a; b] -> OEq (nat_s a, nat_s b)
   | ["serde"; s; k; d] -> OSerDe (nat_s s, kind_of k, nat_s d)
   | "deser" :: k :: r :: n :: rest ->
